@@ -1,7 +1,7 @@
 """psv.props — which rules decide which property."""
 from . import core
 from .report import Check
-from .rules import cw, ed, mt, ts, vg, pm, ax, kb
+from .rules import cw, ed, mt, ts, vg, pm, ax, kb, dp
 
 
 def c18(tier):
@@ -178,7 +178,43 @@ def c04(tier):
     return C.finish()
 
 
-TABLE = {"C05": c05, "C04": c04, "C16": c16, "C15": c15, "C18": c18, "C08": c08, "C12": c12, "C20": c20, "C13": c13, "C07": c07}
+def c03(tier):
+    C = Check("C03", tier,
+              explanation="Path independence decided structurally: every arm of the evaluator dispatch names the core its case labels require, "
+              "both pointers definitely assigned, no fall-through, known-order guards and template lists identical, with and without "
+              "PHOTOSPLINE_NO_EVAL_TEMPLATES (DP-1..4); constexpr chunk helpers evaluated by clang equal their products (DP-7); all 108 "
+              "instantiated scalar/SIMD cores reduce to the generic core's phases under the substitutions that define them (CL-1); evaluator "
+              "entry points are clones of the table's (CL-2); the C wrappers forward unchanged (CW-5). Does not decide bit identity under "
+              "code generation (FMA contraction, vector vs scalar rounding), which is a property of the binary.",
+              assumptions=["expression trees are compared; association order of floating-point operations is part of the tree"])
+    P = core.load(tier=tier)
+    dp.dp(P, C)
+    dp.dp(P, C, variant="driver-noevaltmpl")
+    dp.dp7(P, C)
+    n = dp.cl1(P, C)
+    dp.cl2(P, C)
+    cw.cw5(P, C)
+    C.extra["cores_compared"] = n
+    C.extra["units"] = sorted(P.units.keys())
+    return C.finish()
+
+
+def c02(tier):
+    C = Check("C02", tier,
+              explanation="Derivative plumbing decided structurally: every basis kernel writes slot 0 of each output on every path (KB-4), the kernels "
+              "agree on the order-0 special case value 1 / derivative 0 (CL-3), and every entry point selects the kernel from the derivative "
+              "selector only and passes knots/nknots/x/centre/order of the same dimension, with the gradient lanes wired value/derivative/value "
+              "(CL-4). Does not decide numerical equality of any derivative.",
+              assumptions=["bspline_deriv (recursive reference) is taken as the definition for derivative orders >= 2"])
+    P = core.load(tier=tier)
+    kb.kb4(P, C)
+    dp.cl3(P, C)
+    dp.cl4(P, C)
+    C.extra["units"] = sorted(P.units.keys())
+    return C.finish()
+
+
+TABLE = {"C03": c03, "C02": c02, "C05": c05, "C04": c04, "C16": c16, "C15": c15, "C18": c18, "C08": c08, "C12": c12, "C20": c20, "C13": c13, "C07": c07}
 
 
 def run(prop, tier):
